@@ -80,6 +80,18 @@ type VCase struct {
 	Faults  []Fault  `json:"faults,omitempty"`  // schedule for MarshalWrite over a faulting writer
 }
 
+// scribbleWriter appends to another buffer before it copies what it is handed.
+type scribbleWriter struct {
+	first *bytes.Buffer
+	buf   []byte
+}
+
+func (w *scribbleWriter) Write(p []byte) (int, error) {
+	w.first.Write(bytes.Repeat([]byte("#"), len(p)+32))
+	w.buf = append(w.buf, p...)
+	return len(p), nil
+}
+
 // leafText is a top-level value written through MarshalText.
 type leafText string
 
@@ -234,6 +246,32 @@ func RunValue(c VCase) error {
 		}
 		if !bytes.Equal(r3.Buf, want) {
 			return fmt.Errorf("MarshalWrite into a plain writer (write sizes %s) differs from Marshal: %s", chunkEnds(&r3.Recorder, r3.Lens), around(r3.Buf, want))
+		}
+	}
+
+	// A *bytes.Buffer that received one call keeps spare capacity; a later call
+	// to another writer must not work in that memory (the writer below appends
+	// to the first buffer before it looks at the bytes it is handed).
+	{
+		var first bytes.Buffer
+		first.Grow(len(want) + 8192)
+		cur = &probe{}
+		if p := rt.Guard(func() { err = json.MarshalWrite(&first, v, opts...) }); p != nil || err != nil {
+			return fmt.Errorf("MarshalWrite(pre-grown *bytes.Buffer) failed: %v %v", p, err)
+		}
+		sw := &scribbleWriter{first: &first}
+		cur = &probe{}
+		if p := rt.Guard(func() { err = json.MarshalWrite(sw, v, opts...) }); p != nil {
+			return fmt.Errorf("MarshalWrite(plain writer after a *bytes.Buffer call) panicked: %v", p)
+		}
+		if err != nil {
+			return fmt.Errorf("MarshalWrite(plain writer after a *bytes.Buffer call) failed: %v", err)
+		}
+		if !bytes.Equal(sw.buf, want) {
+			return fmt.Errorf("MarshalWrite into a plain writer differs from Marshal when an earlier call wrote to a *bytes.Buffer that is appended to meanwhile (the encoder works in the spare capacity of that buffer): %s", around(sw.buf, want))
+		}
+		if !bytes.HasPrefix(first.Bytes(), want) {
+			return fmt.Errorf("the *bytes.Buffer of an earlier MarshalWrite was altered by a later call to another writer: %s", around(first.Bytes(), want))
 		}
 	}
 
